@@ -10,6 +10,7 @@ func TestVerifC19(t *testing.T) {
 	// cheapest parts first: the internal deadline, if it ever strikes, cuts the largest one
 	parts := append(c19WriterParts(),
 		c19RspOpsPart(),
+		c19RspSrvPart(),
 		c19ConnPart(),
 		c19WirePart(),
 		c19FieldsPart("fields-trailer", c19Trl),
